@@ -110,6 +110,12 @@ USAGE_ERRORS = [
     (["-f", "custom", "--msg-template", "notags", "T"], "template without tags"),
     (["-b", "T", "-f", "csv", "T"], "baseline with a format that does not support it"),
     (["-t", "B999", "T"], "only unknown test selected"),
+    # the same usage errors when nothing meets the thresholds (or nothing is found at all): an error is an error
+    (["-f", "custom", "--msg-template", "{", "-lll", "-iii", "T"], "malformed template, no finding meets the thresholds"),
+    (["-f", "custom", "--msg-template", "{line:zz}", "-lll", "-iii", "T"], "template with a bad format spec, no finding meets the thresholds"),
+    (["-f", "custom", "--msg-template", "notags", "-lll", "-iii", "T"], "template without tags, no finding meets the thresholds"),
+    (["-f", "custom", "--msg-template", "{", "CLEAN"], "malformed template, file without findings"),
+    (["-f", "custom", "--msg-template", "notags", "CLEAN"], "template without tags, file without findings"),
 ]
 
 
@@ -197,6 +203,31 @@ def system_cases(R, rng, tier):
         if sorted((x["test_id"], x["line"]) for x in got) != sorted((x["test_id"], x["line"]) for x in want) or r["exit"] != (1 if want else 0):
             R.violations.append({"what": "level=%d confidence=%d in a .bandit file: %d findings reported (exit %s), %d meet the thresholds" % (
                 si + 1, ci + 1, len(got), r["exit"], len(want)), "input": inp, "observed": [(x["test_id"], x["severity"], x["confidence"]) for x in got][:8], "signature": None})
+    # a threshold given on the command line - in any spelling argparse accepts: clustered with other short flags, abbreviated
+    # long options - is the threshold in force, also when a .bandit file sets another one
+    spell = [(["-r", "-lll"], 3, None), (["-rlll"], 3, None), (["-qrll"], 2, None), (["-riii"], None, 3), (["-rllliii"], 3, 3),
+             (["-r", "--severity-l", "medium"], 2, None), (["-r", "--confidence-l", "high"], None, 3), (["-r", "--confidence-l", "medium", "-ll"], 2, 2),
+             (["-rl", "--confidence-l", "low"], 1, 1)]
+    for inis, isev, iconf in ((None, None, None), ("level = 1\nconfidence = 1\n", 0, 0), ("level = 4\n", 3, None), ("confidence = 3\nlevel = 2\n", 1, 2)):
+        for extra, si, ci in (spell if tier != "quick" else rng.sample(spell, 5)):
+            # a threshold the command line does not give comes from the .bandit file, else it is "everything"
+            si = si if si is not None else (isev or 0)
+            ci = ci if ci is not None else (iconf or 0)
+            ini = os.path.join(d, "sp.ini")
+            open(ini, "w").write("[bandit]\n" + (inis or ""))
+            r = climain.run_main(["-f", "json", "-q"] + (["--ini", ini] if inis else []) + extra + [f])
+            want = [u for u in U if RANKS.index(u["severity"]) >= si and RANKS.index(u["confidence"]) >= ci]
+            R.case(("spelling", tuple(extra), inis), nontrivial=True, sample={"argv": extra, "ini": inis, "exit": r["exit"]})
+            R.count("system:spelling")
+            inp = {"argv": extra, "ini": inis, "file": f}
+            if r["exception"]:
+                R.violations.append({"what": "threshold spelling %s ends in a traceback (%s)" % (extra, r["exception"]), "input": inp, "observed": r["traceback"], "signature": None})
+                continue
+            got = reports.parse("json", r["stdout"])["records"] or []
+            if sorted((x["test_id"], x["line"]) for x in got) != sorted((x["test_id"], x["line"]) for x in want) or r["exit"] != (1 if want else 0):
+                R.violations.append({"what": "thresholds spelled %s%s: %d findings reported (exit %s), %d meet severity>=%s confidence>=%s" % (
+                    extra, " next to a .bandit file saying %r" % inis if inis else "", len(got), r["exit"], len(want), RANKS[si], RANKS[ci]),
+                    "input": inp, "observed": [(x["test_id"], x["severity"], x["confidence"]) for x in got][:8], "signature": None})
     for bad in ("level = 5", "confidence = 9", "level = -1", "level = 0x", "confidence = 4.5"):
         ini = os.path.join(d, "bad.ini")
         open(ini, "w").write("[bandit]\n%s\n" % bad)
@@ -209,7 +240,9 @@ def system_cases(R, rng, tier):
     # usage / configuration errors: exit 2, diagnostic, no traceback
     tgt = files[0]
     for argv, what in USAGE_ERRORS:
-        a = [tgt if x == "T" else x for x in argv]
+        clean = os.path.join(d, "zz_clean.py")
+        open(clean, "w").write("zz_nothing = 1\n")
+        a = [tgt if x == "T" else clean if x == "CLEAN" else x for x in argv]
         r = climain.run_main(a)
         R.case(("usage", tuple(argv)), nontrivial=True, sample={"argv": argv, "exit": r["exit"], "exception": r["exception"]})
         R.count("usage")
